@@ -1,4 +1,4 @@
-import SqiProofs.CurveDblmulTop
+import SqiProofs.CurveDblmulBounded
 
 /-! # C08 — x-only Montgomery curve arithmetic implements the elliptic-curve group law
 
@@ -208,6 +208,34 @@ theorem xDBLMUL_zero_scalar {a : F} (h2 : (2 : F) ≠ 0) (nbits : Nat) (hn : 0 <
     IsX (2 ^ nbits • Pt + l • Qt) (xDBLMUL nbits 0 l P Q PQ curve).x (xDBLMUL nbits 0 l P Q PQ curve).z := by
   have := xDBLMUL_correct_general h2 nbits hn 0 l curve hA hC hflag Pt Qt P Q PQ hP hQ hD nP nQ nS nD
   rwa [chainScalar_zero, chainScalar_pos nbits l hn hl0 hl] at this
+
+/-- **xDBLMUL_bounded, whole function**: the main loop is applied only for digit indices `≤ b`
+(`b = f + 2 + (BITS - TORSION_PLUS_EVEN_POWER)` in the C code). If the odd-ified scalars are `< 2^(b+1)` the skipped
+iterations leave the state untouched and the result is the same as for `xDBLMUL`. (For `k = 0` the odd-ified scalar is
+`2^nbits - 1`, which violates the hypothesis: this is why `ec_biscalar_mul_bounded` replaces a zero scalar.) -/
+theorem xDBLMUL_bounded_correct {a : F} (h2 : (2 : F) ≠ 0) (nbits : Nat) (hn : 0 < nbits) (b k l : Nat)
+    (curve : EcCurve F) (hA : curve.A = a * curve.C) (hC : curve.C ≠ 0)
+    (hflag : curve.is_A24_computed_and_normalized ≠ 0 → 4 * curve.A24.x = a + 2)
+    (hkb : oddify nbits k < 2 ^ (b + 1)) (hlb : oddify nbits l < 2 ^ (b + 1))
+    (Pt Qt : (mont a).Point) (P Q PQ : EcPoint F)
+    (hP : IsX Pt P.x P.z) (hQ : IsX Qt Q.x Q.z) (hD : IsX (Pt - Qt) PQ.x PQ.z)
+    (nP : XNonDeg Pt) (nQ : XNonDeg Qt) (nS : XNonDeg (Pt + Qt)) (nD : XNonDeg (Pt - Qt)) :
+    IsX (chainScalar nbits k • Pt + chainScalar nbits l • Qt)
+      (xDBLMULgen nbits (some b) k l P Q PQ curve).x (xDBLMULgen nbits (some b) k l P Q PQ curve).z :=
+  xDBLMUL_bounded_ok h2 nbits hn b k l curve (dblmulA24_ok h2 curve hA hC hflag) hkb hlb Pt Qt P Q PQ hP hQ hD nP nQ nS nD
+
+/-- **ec_biscalar_mul_bounded** as repaired (fix 76cbdb3: a zero scalar is replaced by `2^f`): for points of order
+dividing `2^f` (`f < BITS`) and **all** scalars `0 ≤ k, l < 2^f` the result is `x([k]P + [l]Q)`. -/
+theorem ec_biscalar_mul_bounded_correct {a : F} (h2 : (2 : F) ≠ 0) (nbits tpe f : Nat) (hf : f < nbits) (k l : Nat)
+    (hk : k < 2 ^ f) (hl : l < 2 ^ f) (curve : EcCurve F) (hA : curve.A = a * curve.C) (hC : curve.C ≠ 0)
+    (hflag : curve.is_A24_computed_and_normalized ≠ 0 → 4 * curve.A24.x = a + 2)
+    (Pt Qt : (mont a).Point) (hoP : 2 ^ f • Pt = 0) (hoQ : 2 ^ f • Qt = 0) (P Q PQ : EcPoint F)
+    (hP : IsX Pt P.x P.z) (hQ : IsX Qt Q.x Q.z) (hD : IsX (Pt - Qt) PQ.x PQ.z)
+    (nP : XNonDeg Pt) (nQ : XNonDeg Qt) (nS : XNonDeg (Pt + Qt)) (nD : XNonDeg (Pt - Qt)) :
+    IsX (k • Pt + l • Qt) (biscalarMulBounded nbits tpe f k l P Q PQ curve).x
+      (biscalarMulBounded nbits tpe f k l P Q PQ curve).z :=
+  biscalarMulBounded_ok h2 nbits tpe f hf k l hk hl curve (dblmulA24_ok h2 curve hA hC hflag) Pt Qt hoP hoQ P Q PQ
+    hP hQ hD nP nQ nS nD
 
 /-- one applied iteration of the main loop on the group (building block of the theorem above) -/
 theorem xDBLMUL_step {a : F} (h2 : (2 : F) ≠ 0) {A24 : EcPoint F} (hA : 4 * A24.x = a + 2)
